@@ -61,6 +61,14 @@ def run(tier, rng, rep):
         llas = start + step * np.arange(nl)
         check(y, miss, llas, None, rep, "optv")
         check(y, miss, llas, float(rng.choice([0.1, 0.5, 0.9, 0.95])), rep, "optvp")
+    # low-amplitude series on a grid that reaches lambda = 1e8 (roughness sums become tiny)
+    for it in range(6 if tier == "quick" else 40):
+        n = int(rng.choice([12, 24, 48]))
+        y = rng.integers(1, int(rng.choice([7, 30, 300])), n).astype("float64")
+        miss = np.zeros(n, bool)
+        llas = np.arange(0, 8.5, 0.5)
+        check(y, miss, llas, None, rep, "optv.lowamp")
+        check(y, miss, llas, 0.9, rep, "optvp.lowamp")
     # autocorrelation-driven grid
     for it in range(24 if tier == "quick" else 150):
         n = int(rng.choice([5, 9, 20, 50]))
@@ -102,7 +110,7 @@ def run(tier, rng, rep):
     da = xr.DataArray(cube, dims=("time", "y", "x"))
     da["time"] = np.array([np.datetime64("2001-01-01") + np.timedelta64(int(k) * 10, "D") for k in range(t)])
     srange = np.arange(-1, 2.2, 0.2)
-    for p in (None, 0.9):
+    for p in (None, 0.9, 0.5, 0.1):
         ds = da.hdc.whit.whitsvc(nodata=ND, srange=srange, p=p).transpose("time", "y", "x")
         rep.case("accessor.whitsvc", {"p": p})
         for r in range(2):
